@@ -34,7 +34,7 @@ func (e specError) Error() string { return e.msg }
 
 func (env *specEnv) fail(format string, a ...interface{}) {
 	where := ""
-	if env.clause != nil {
+	if env.clause != nil && env.clause.File != "" {
 		where = fmt.Sprintf("%s:%d: ", env.clause.File, env.clause.Line)
 	}
 	panic(unsupported{"contract-stale: " + where + fmt.Sprintf(format, a...)})
@@ -515,6 +515,7 @@ func (env *specEnv) evalIndex(t *ast.IndexExpr) Value {
 	switch u := x.T.Underlying().(type) {
 	case *types.Slice:
 		i := env.toInt64(env.eval(t.Index))
+		env.ex.noteIndex(i)
 		a := &Addr{Kind: "elem", Base: x.C[0], Idx: BVBin("bvadd", x.C[1], i), Root: u.Elem()}
 		return env.ex.load(env.st, a)
 	case *types.Map:
